@@ -7,6 +7,7 @@ type probeSet struct {
 	argmaps        int
 	genSchemas     int
 	genFaultySch   int
+	genVariants    int
 	genLonely      int
 	genDocs        int
 	genDocsFaulted int
@@ -24,6 +25,7 @@ func Probes() map[string]int {
 		"gen_schemas":                        probes.genSchemas,
 		"gen_schemas_with_injected_faults":   probes.genFaultySch,
 		"gen_schemas_with_memberless_iface":  probes.genLonely,
+		"gen_schema_valid_variants":          probes.genVariants,
 		"gen_documents":                      probes.genDocs,
 		"gen_documents_with_injected_faults": probes.genDocsFaulted,
 		"gen_faults_injected":                probes.genFaults,
@@ -67,13 +69,14 @@ func noteFaults(names []string) {
 type GenPool struct {
 	Schema       string
 	FaultySchema []string
+	Variants     []string // loadable siblings: same names, other relations/members/fields
 	Docs         []string
 }
 
 // GenPoolFor builds a pool from one seed. nFaulty faulty variants of the schema
 // (1-3 injected loader-rule violations each, in different definitions), nDocs
 // documents of which about faultyDocs in 10 carry 1-3 injected faults.
-func GenPoolFor(r *Rng, nFaulty, nDocs, faultyDocsIn10 int) *GenPool {
+func GenPoolFor(r *Rng, nFaulty, nVariants, nDocs, faultyDocsIn10 int) *GenPool {
 	seed := r.U64()
 	s := GenSchema(NewRng(seed))
 	p := &GenPool{Schema: s.Render(NewRng(seed + 1))}
@@ -94,6 +97,12 @@ func GenPoolFor(r *Rng, nFaulty, nDocs, faultyDocsIn10 int) *GenPool {
 		p.FaultySchema = append(p.FaultySchema, f.Render(NewRng(order)))
 		bump(&probes.genFaultySch)
 		noteFaults(prefixAll("schema:", f.Faults))
+	}
+	for i := 0; i < nVariants; i++ {
+		v := GenSchema(NewRng(seed))
+		MutateSchemaValid(r, v, r.Range(1, 4))
+		p.Variants = append(p.Variants, v.Render(NewRng(seed+1)))
+		bump(&probes.genVariants)
 	}
 	for i := 0; i < nDocs; i++ {
 		nf := 0
